@@ -23,6 +23,13 @@ structure FnsOK (p : Prog) (ck : Bool) (B : Nat) (fa : FAddr) (fns : List FDecl)
   wf : ∀ fd ∈ fns, wfS fd.params fd.body = true
   plain : ∀ fd ∈ fns, Core.plain fd.body = true
 
+/-- faults are only defined in checked builds; a callee's stack check compares with the frame peak
+modulo the word, so the overflow verdict needs the peaks of the functions to be representable -/
+def FaultOK (ck : Bool) (fns : List FDecl) (w : Nat) : Res → Prop
+  | .div0 => ck = true
+  | .ovf => ck = true ∧ ∀ fd ∈ fns, pkS w (entryOff w fd.params) fd.body < 256 ^ w
+  | _ => True
+
 /-- what a caller must know about the end of a statement list that contains `try` -/
 def Safe (p : Prog) (B ra : Nat) (Γ : Gam) (env' : Env) (F D o pcEnd : Nat) (m : Mem) (res : Res) (s : S) : Prop :=
   noTry s = true ∨
@@ -64,7 +71,7 @@ theorem cS_ok (lib : Placed p B) (fok : FnsOK p ck B fa fns) :
       pc + (cS (cxOf p ck B) fa Γ pc o s).length ≤ B →
       SInv p Γ env m F D o ra → Disj p.w Γ → wfS (Γ.map Prod.fst) s = true →
       pkS p.w o s ≤ D → p.w ≤ o →
-      exec (256 ^ p.w) (8 * p.w) fns p.w fuel D o env s = some (env', tr, res) → (res = .div0 → ck = true) →
+      exec (256 ^ p.w) (8 * p.w) fns p.w fuel D o env s = some (env', tr, res) → FaultOK ck fns p.w res →
       Safe p B ra Γ env' F D o (pc + (cS (cxOf p ck B) fa Γ pc o s).length) m res s →
       Concl p B ra Γ env' F D o pc (pc + (cS (cxOf p ck B) fa Γ pc o s).length) m tr res := by
   have hw := lib.hw
@@ -83,16 +90,22 @@ theorem cS_ok (lib : Placed p B) (fok : FnsOK p ck B fa fns) :
         Reach (sphinx p) ⟨pc0, m0⟩ t ⟨B + off_division_by_zero, m'⟩ →
         Concl p B ra Γ env0 F D o pc0 e0 m0 t .div0 :=
       fun _ _ _ _ m' _ r => ⟨fun h => absurd h (by decide), fun _ => ⟨⟨_, m'⟩, r, by simp [Post]⟩⟩
+    -- the same for a stack overflow in a callee
+    have faultO : ∀ (pc0 : Nat) (e0 : Nat) (env0 : Env) (m0 m' : Mem) (t : List Ev),
+        Reach (sphinx p) ⟨pc0, m0⟩ t ⟨B + off_stack_overflow, m'⟩ →
+        Concl p B ra Γ env0 F D o pc0 e0 m0 t .ovf :=
+      fun _ _ _ _ m' _ r => ⟨fun h => absurd h (by decide), fun _ => ⟨⟨_, m'⟩, r, by simp [Post]⟩⟩
     -- a call `g(args)` at the start of the list: the callee's body by the induction hypothesis
-    have hcall : ∀ (g : String) (args : List E) (trc : List Ev) (flag : Bool) (rv : Option Nat),
+    have hcall : ∀ (g : String) (args : List E) (trc : List Ev) (flag : Option Res) (rv : Option Nat),
         PlacedAt p pc (cCall (cxOf p ck B) fa Γ pc o g args) →
         pc + (cCall (cxOf p ck B) fa Γ pc o g args).length ≤ B →
         args.all (boundE (Γ.map Prod.fst)) = true → pkCall p.w o args ≤ D →
         callWith (256 ^ p.w) (8 * p.w) fns p.w (exec (256 ^ p.w) (8 * p.w) fns p.w f) D o env g args
           = some (trc, flag, rv) →
-        (flag = true → ck = true) →
-        (flag = true → ∃ m', Reach (sphinx p) ⟨pc, m⟩ trc ⟨B + off_division_by_zero, m'⟩) ∧
-        (flag = false → ∃ m', Reach (sphinx p) ⟨pc, m⟩ trc
+        (∀ r, flag = some r → FaultOK ck fns p.w r) →
+        (flag = some .div0 → ∃ m', Reach (sphinx p) ⟨pc, m⟩ trc ⟨B + off_division_by_zero, m'⟩) ∧
+        (flag = some .ovf → ∃ m', Reach (sphinx p) ⟨pc, m⟩ trc ⟨B + off_stack_overflow, m'⟩) ∧
+        (flag = none → ∃ m', Reach (sphinx p) ⟨pc, m⟩ trc
             ⟨pc + (cCall (cxOf p ck B) fa Γ pc o g args).length, m'⟩ ∧ Keep p.w m m' (F - o) ∧
           ∀ v, rv = some v → m'.readLE (F - (o + p.w)) p.w = v) := by
       intro g args trc flag rv hplc hBc hba hpkc hcw hfl
@@ -133,8 +146,8 @@ theorem cS_ok (lib : Placed p B) (fok : FnsOK p ck B fa fns) :
       | none =>
         simp only [hev, Option.some.injEq, Prod.mk.injEq] at hcw
         obtain ⟨rfl, rfl, rfl⟩ := hcw
-        obtain ⟨m', rd⟩ := hp.2 hev (hfl rfl)
-        exact ⟨fun _ => ⟨m', by simpa [evl] using s0.trans rd⟩, fun h => absurd h (by simp)⟩
+        obtain ⟨m', rd⟩ := hp.2 hev (hfl .div0 rfl)
+        exact ⟨fun _ => ⟨m', by simpa [evl] using s0.trans rd⟩, fun h => absurd h (by simp), fun h => absurd h (by simp)⟩
       | some vs =>
         simp only [hev] at hcw
         cases hfind : fns.find? (fun fd => fd.name == g) with
@@ -144,11 +157,10 @@ theorem cS_ok (lib : Placed p B) (fok : FnsOK p ck B fa fns) :
           have hmem : fd ∈ fns := List.mem_of_find?_eq_some hfind
           have hname : fd.name = g := by simpa using List.find?_some hfind
           subst hname
-          by_cases hcond : vs.length ≠ fd.params.length ∨ D < o ∨ D - o < pkS p.w (entryOff p.w fd.params) fd.body
+          by_cases hcond : vs.length ≠ fd.params.length ∨ D < o
           · simp [hcond] at hcw
           · rw [if_neg hcond] at hcw
             have hvl : vs.length = fd.params.length := by omega
-            have hfit : pkS p.w (entryOff p.w fd.params) fd.body ≤ D - o := by omega
             obtain ⟨m2, r2, k2, hsl2⟩ := hp.1 vs hev
             have fr2 := fr1.keep k2
             have hra2 : m2.readLE (F - (o + p.w)) p.w = pc + 1 + push.length + 3 := by
@@ -182,8 +194,22 @@ theorem cS_ok (lib : Placed p B) (fok : FnsOK p ck B fa fns) :
             -- the callee's frame
             have fr3 : Fr p m3 (F - o) (D - o) :=
               ⟨hfp3, hap3, by rw [hsz3]; have := fr2.top; omega, by omega, by omega⟩
+            by_cases hp : D - o < pkS p.w (entryOff p.w fd.params) fd.body
+            · rw [if_pos hp] at hcw
+              simp only [Option.some.injEq, Prod.mk.injEq] at hcw
+              obtain ⟨rfl, rfl, rfl⟩ := hcw
+              obtain ⟨hckt, hpkM⟩ := hfl .ovf rfl
+              obtain ⟨m', rso⟩ := (prologue_ok (ck := ck) lib fa (faddr fa fd.name) fd.params fd.body m3 (F - o) (D - o) fr3
+                hplf hBf (hpkM fd hmem)).2 hckt (by have := fr3.room; omega)
+              refine ⟨fun h => absurd h (by simp), fun _ => ⟨m', ?_⟩, fun h => absurd h (by simp)⟩
+              have r3 := Reach.of_next (sys := sphinx p) s3
+              have r2' : Reach (sphinx p) ⟨pc + 1, m1⟩ [] ⟨pc + (1 + push.length), m2⟩ := by simpa [Nat.add_assoc] using r2
+              have := s0.trans (r2'.trans (r3.trans (jcall.trans rso)))
+              simpa [evl] using this
+            rw [if_neg hp] at hcw
+            have hfit : pkS p.w (entryOff p.w fd.params) fd.body ≤ D - o := by omega
             have hpro := (prologue_ok (ck := ck) lib fa (faddr fa fd.name) fd.params fd.body m3 (F - o) (D - o) fr3
-              hplf hBf (by omega)).1 (by omega)
+              hplf hBf (by omega)).1 (by have := fr3.room; omega)
             have hsl3 : SlotsAt p.w m3 (F - o) (2 * p.w) vs := by
               apply SlotsAt_shift
               refine SlotsAt_congr p.w m2 m3 F (2 * p.w) hrd3 vs (o + 2 * p.w) ?_ (by rw [show o + 2 * p.w = o + p.w + p.w by omega]; exact hsl2)
@@ -227,7 +253,8 @@ theorem cS_ok (lib : Placed p B) (fok : FnsOK p ck B fa fns) :
                 (bindEnv fd.params vs) (faddr fa fd.name + prologueLen ck) (entryOff p.w fd.params) m3 envb trb resb
                 hplb (by omega) hinv3 (disj_paramGam p.w fd.params (2 * p.w) (fok.nodup fd hmem))
                 (by rw [map_fst_paramGam]; exact fok.wf fd hmem) hfit heW hexb
-                (by intro hr; subst hr; simp only [Option.some.injEq, Prod.mk.injEq] at hcw; exact hfl hcw.2.1.symm)
+                (by cases resb <;> simp only [FaultOK] <;>
+                      first | trivial | (simp only [Option.some.injEq, Prod.mk.injEq] at hcw; exact hfl _ hcw.2.1.symm))
                 (Or.inl (plain_noTry _ (fok.plain fd hmem)))
               have r03 : Reach (sphinx p) ⟨pc, m⟩ [] ⟨faddr fa fd.name + prologueLen ck, m3⟩ := by
                 have r3 := Reach.of_next (sys := sphinx p) s3
@@ -272,7 +299,15 @@ theorem cS_ok (lib : Placed p B) (fok : FnsOK p ck B fa fns) :
                 obtain ⟨pc', m'⟩ := st'
                 simp only [Post] at hpost
                 subst hpost
-                exact ⟨fun _ => ⟨m', by simpa using r03.trans rb⟩, fun h => absurd h (by simp)⟩
+                exact ⟨fun _ => ⟨m', by simpa using r03.trans rb⟩, fun h => absurd h (by simp), fun h => absurd h (by simp)⟩
+              | ovf =>
+                simp only [Option.some.injEq, Prod.mk.injEq] at hcw
+                obtain ⟨rfl, rfl, rfl⟩ := hcw
+                obtain ⟨st', rb, hpost⟩ := hbody.2 (by simp)
+                obtain ⟨pc', m'⟩ := st'
+                simp only [Post] at hpost
+                subst hpost
+                exact ⟨fun h => absurd h (by simp), fun _ => ⟨m', by simpa using r03.trans rb⟩, fun h => absurd h (by simp)⟩
               | returned =>
                 simp only [Option.some.injEq, Prod.mk.injEq] at hcw
                 obtain ⟨rfl, rfl, rfl⟩ := hcw
@@ -282,7 +317,7 @@ theorem cS_ok (lib : Placed p B) (fok : FnsOK p ck B fa fns) :
                 obtain ⟨hpc', k34⟩ := hpost
                 subst hpc'
                 obtain ⟨r6, k6, _⟩ := back m4 k34
-                refine ⟨fun h => absurd h (by simp), fun _ => ⟨_, ?_, k6, fun v hv => absurd hv (by simp)⟩⟩
+                refine ⟨fun h => absurd h (by simp), fun h => absurd h (by simp), fun _ => ⟨_, ?_, k6, fun v hv => absurd hv (by simp)⟩⟩
                 simpa using (r03.trans rb).trans r6
               | retv v =>
                 simp only [Option.some.injEq, Prod.mk.injEq] at hcw
@@ -293,7 +328,7 @@ theorem cS_ok (lib : Placed p B) (fok : FnsOK p ck B fa fns) :
                 obtain ⟨hpc', k34, hv4⟩ := hpost
                 subst hpc'
                 obtain ⟨r6, k6, h6⟩ := back m4 k34
-                refine ⟨fun h => absurd h (by simp), fun _ => ⟨_, ?_, k6, fun v' hv' => ?_⟩⟩
+                refine ⟨fun h => absurd h (by simp), fun h => absurd h (by simp), fun _ => ⟨_, ?_, k6, fun v' hv' => ?_⟩⟩
                 · simpa using (r03.trans rb).trans r6
                 · simp only [Option.some.injEq] at hv'
                   subst hv'
@@ -333,7 +368,7 @@ theorem cS_ok (lib : Placed p B) (fok : FnsOK p ck B fa fns) :
       | none =>
         simp only [exec, hev, Option.some.injEq, Prod.mk.injEq] at hex
         obtain ⟨rfl, rfl, rfl⟩ := hex
-        obtain ⟨m', r⟩ := hp.2 hev (hck rfl)
+        obtain ⟨m', r⟩ := hp.2 hev hck
         exact fault _ _ _ _ m' _ r
       | some v =>
         simp only [exec, hev] at hex
@@ -349,6 +384,7 @@ theorem cS_ok (lib : Placed p B) (fok : FnsOK p ck B fa fns) :
             exact ⟨hpost.1, decl_back hinv x hpost.2.1 hxn, hpost.2.2⟩
           | returned => simpa [Post] using hpost
           | div0 => simpa [Post] using hpost
+          | ovf => simpa [Post] using hpost
           | defeat => simpa [Post] using hpost
           | retv v => simpa [Post] using hpost
         have hk := ih F D ra hra k ((x, o + p.w) :: Γ) (upd env x v) _ (o + p.w) m1 env' tr res hpl2 (by omega)
@@ -377,7 +413,7 @@ theorem cS_ok (lib : Placed p B) (fok : FnsOK p ck B fa fns) :
       | none =>
         simp only [exec, hev, Option.some.injEq, Prod.mk.injEq] at hex
         obtain ⟨rfl, rfl, rfl⟩ := hex
-        obtain ⟨m', r⟩ := hg'.2 hev (hck rfl)
+        obtain ⟨m', r⟩ := hg'.2 hev hck
         exact fault _ _ _ _ m' _ r
       | some v =>
         simp only [exec, hev] at hex
@@ -412,7 +448,7 @@ theorem cS_ok (lib : Placed p B) (fok : FnsOK p ck B fa fns) :
       | none =>
         simp only [exec, hev, Option.some.injEq, Prod.mk.injEq] at hex
         obtain ⟨rfl, rfl, rfl⟩ := hex
-        obtain ⟨m', r⟩ := hwr.2 hev (hck rfl)
+        obtain ⟨m', r⟩ := hwr.2 hev hck
         exact fault _ _ _ _ m' _ r
       | some v =>
         simp only [exec, hev] at hex
@@ -462,7 +498,7 @@ theorem cS_ok (lib : Placed p B) (fok : FnsOK p ck B fa fns) :
         | none =>
           simp only [exec, hev, Option.some.injEq, Prod.mk.injEq] at hex
           obtain ⟨rfl, rfl, rfl⟩ := hex
-          obtain ⟨m', r⟩ := hwr.2 hev (hck rfl)
+          obtain ⟨m', r⟩ := hwr.2 hev hck
           exact fault _ _ _ _ m' _ r
         | some v =>
           simp only [exec, hev] at hex
@@ -545,7 +581,7 @@ theorem cS_ok (lib : Placed p B) (fok : FnsOK p ck B fa fns) :
                 subst hpc1
                 obtain ⟨st', r2, hp2⟩ := (contK m1 hi1 km1).2 (exec_no_defeat _ _ _ _ _ _ _ _ _ _ _ _ h1.2 hk)
                 exact (r2.exec (h2 st' (by refine post_conv ?_ st' (hp2.rebase km1); omega))).2
-            have hbb := ih F D ra hra b Γ env pc o m env1 tr1 .norm hpl1 (by omega) hinv hd hwf.1 (by omega) ho hb1 (by simp) hsb
+            have hbb := ih F D ra hra b Γ env pc o m env1 tr1 .norm hpl1 (by omega) hinv hd hwf.1 (by omega) ho hb1 trivial hsb
             obtain ⟨st1, r1, hp1⟩ := hbb.2 (by decide)
             obtain ⟨pc1, m1⟩ := st1
             simp only [Post] at hp1
@@ -560,6 +596,7 @@ theorem cS_ok (lib : Placed p B) (fok : FnsOK p ck B fa fns) :
             | norm => exact absurd rfl hn
             | returned => simpa [Post] using h
             | div0 => simpa [Post] using h
+            | ovf => simpa [Post] using h
             | defeat => simpa [Post] using h
             | retv v => simpa [Post] using h
           have hbb := ih F D ra hra b Γ env pc o m env1 tr1 res1 hpl1 (by omega) hinv hd hwf.1 (by omega) ho hb1 hck
@@ -585,7 +622,7 @@ theorem cS_ok (lib : Placed p B) (fok : FnsOK p ck B fa fns) :
       | none =>
         simp only [exec, hev, Option.some.injEq, Prod.mk.injEq] at hex
         obtain ⟨rfl, rfl, rfl⟩ := hex
-        obtain ⟨m', r⟩ := hcd.2.2 hev (hck rfl)
+        obtain ⟨m', r⟩ := hcd.2.2 hev hck
         exact fault _ _ _ _ m' _ r
       | some cv =>
         cases cv with
@@ -624,7 +661,7 @@ theorem cS_ok (lib : Placed p B) (fok : FnsOK p ck B fa fns) :
       | none =>
         simp only [exec, hev, Option.some.injEq, Prod.mk.injEq] at hex
         obtain ⟨rfl, rfl, rfl⟩ := hex
-        obtain ⟨m', r⟩ := hc.2 hev (hck rfl)
+        obtain ⟨m', r⟩ := hc.2 hev hck
         exact fault _ _ _ _ m' _ r
       | some cv =>
         simp only [exec, hev] at hex
@@ -638,6 +675,7 @@ theorem cS_ok (lib : Placed p B) (fok : FnsOK p ck B fa fns) :
           | norm => exact absurd rfl hx
           | returned => simpa [Post] using h
           | div0 => simpa [Post] using h
+          | ovf => simpa [Post] using h
           | defeat => simpa [Post] using h
           | retv v => simpa [Post] using h
         -- the branch taken, its code address and the address where it ends
@@ -685,7 +723,7 @@ theorem cS_ok (lib : Placed p B) (fok : FnsOK p ck B fa fns) :
                   have km := km0.trans' km1
                   obtain ⟨st', r2, hp2⟩ := (contK m1 hi1 km).2 (exec_no_defeat _ _ _ _ _ _ _ _ _ _ _ _ h1.2 hk)
                   exact (((gX m1).trans r2).exec (h2 st' (hp2.rebase km))).2
-              have hxx := ih F D ra hra X Γ env pcX o m0 env1 tr1 .norm hplX (by rw [hlenX]; omega) hinv0 hd hwX hpkX ho hb1 (by simp)
+              have hxx := ih F D ra hra X Γ env pcX o m0 env1 tr1 .norm hplX (by rw [hlenX]; omega) hinv0 hd hwX hpkX ho hb1 trivial
                 (by rw [hlenX]; exact hsX)
               rw [hlenX] at hxx
               obtain ⟨st1, r1, hp1⟩ := hxx.2 (by decide)
@@ -764,7 +802,7 @@ theorem cS_ok (lib : Placed p B) (fok : FnsOK p ck B fa fns) :
       | none =>
         simp only [exec, hev, Option.some.injEq, Prod.mk.injEq] at hex
         obtain ⟨rfl, rfl, rfl⟩ := hex
-        obtain ⟨m', r⟩ := hc.2 hev (hck rfl)
+        obtain ⟨m', r⟩ := hc.2 hev hck
         exact fault _ _ _ _ m' _ r
       | some cv =>
         obtain ⟨m0, r0, k0⟩ := hc.1 cv hev
@@ -794,6 +832,7 @@ theorem cS_ok (lib : Placed p B) (fok : FnsOK p ck B fa fns) :
               | norm => exact absurd rfl hx
               | returned => simpa [Post] using h
               | div0 => simpa [Post] using h
+              | ovf => simpa [Post] using h
               | defeat => simpa [Post] using h
               | retv v => simpa [Post] using h
             by_cases hn1 : res1 = .norm
@@ -848,7 +887,7 @@ theorem cS_ok (lib : Placed p B) (fok : FnsOK p ck B fa fns) :
                         obtain ⟨hpc1, hi1, k01⟩ := hp1
                         subst hpc1
                         have km1 := km0.trans' k01
-                        have hcc := ih F D ra hra cont Γ env1 (pc + nC + nT) o m1 env2 tr2 .norm hplE (by rw [hlenE]; omega) hi1 hd hwc (by omega) ho hb2 (by simp)
+                        have hcc := ih F D ra hra cont Γ env1 (pc + nC + nT) o m1 env2 tr2 .norm hplE (by rw [hlenE]; omega) hi1 hd hwc (by omega) ho hb2 trivial
                           (by rw [hlenE]; exact hsc m1 km1)
                         rw [hlenE] at hcc
                         obtain ⟨st2, r2, hp2⟩ := hcc.2 (by decide)
@@ -860,7 +899,7 @@ theorem cS_ok (lib : Placed p B) (fok : FnsOK p ck B fa fns) :
                         have g := goto_reach lib (pc + nC + nT + nE) pc m2 hplG (by omega)
                         obtain ⟨st', r3, hp3⟩ := (L m2 hi2 km2).2 (exec_no_defeat _ _ _ _ _ _ _ _ _ _ _ _ h1' hb3)
                         exact ((r2.trans (g.trans r3)).exec (h2 st' (hp3.rebase km2))).2
-                    have hbb := ih F D ra hra body Γ env (pc + nC) o m0 env1 tr1 .norm hplT (by rw [hlenT]; omega) hinv0 hd hwb (by omega) ho hb1 (by simp)
+                    have hbb := ih F D ra hra body Γ env (pc + nC) o m0 env1 tr1 .norm hplT (by rw [hlenT]; omega) hinv0 hd hwb (by omega) ho hb1 trivial
                       (by rw [hlenT]; exact hsbd)
                     rw [hlenT] at hbb
                     obtain ⟨st1, r1, hp1⟩ := hbb.2 (by decide)
@@ -869,7 +908,7 @@ theorem cS_ok (lib : Placed p B) (fok : FnsOK p ck B fa fns) :
                     obtain ⟨hpc1, hi1, k01⟩ := hp1
                     subst hpc1
                     have km1 := km0.trans' k01
-                    have hcc := ih F D ra hra cont Γ env1 (pc + nC + nT) o m1 env2 tr2 .norm hplE (by rw [hlenE]; omega) hi1 hd hwc (by omega) ho hb2 (by simp)
+                    have hcc := ih F D ra hra cont Γ env1 (pc + nC + nT) o m1 env2 tr2 .norm hplE (by rw [hlenE]; omega) hi1 hd hwc (by omega) ho hb2 trivial
                       (by rw [hlenE]; exact hsc m1 km1)
                     rw [hlenE] at hcc
                     obtain ⟨st2, r2, hp2⟩ := hcc.2 (by decide)
@@ -903,7 +942,7 @@ theorem cS_ok (lib : Placed p B) (fok : FnsOK p ck B fa fns) :
                       rw [hlenE] at hcc
                       obtain ⟨st2, r2, hp2⟩ := hcc.2 (exec_no_defeat _ _ _ _ _ _ _ _ _ _ _ _ h1.1.2 hb2)
                       exact (r2.exec (h2 st2 (convN env2 res2 hn2 _ _ st2 (hp2.rebase km1)))).2
-                  have hbb := ih F D ra hra body Γ env (pc + nC) o m0 env1 tr1 .norm hplT (by rw [hlenT]; omega) hinv0 hd hwb (by omega) ho hb1 (by simp)
+                  have hbb := ih F D ra hra body Γ env (pc + nC) o m0 env1 tr1 .norm hplT (by rw [hlenT]; omega) hinv0 hd hwb (by omega) ho hb1 trivial
                     (by rw [hlenT]; exact hsbd)
                   rw [hlenT] at hbb
                   obtain ⟨st1, r1, hp1⟩ := hbb.2 (by decide)
@@ -955,12 +994,13 @@ theorem cS_ok (lib : Placed p B) (fok : FnsOK p ck B fa fns) :
           | norm => exact absurd rfl hx
           | returned => simpa [Post] using h
           | div0 => simpa [Post] using h
+          | ovf => simpa [Post] using h
           | defeat => simpa [Post] using h
           | retv v => simpa [Post] using h
         -- the rest of the list, from any state at `end_try` reachable from `m`
         have contK : ∀ (env1 : Env) (m1 : Mem) (env3 : Env) (tr3 : List Ev) (res3 : Res),
             SInv p Γ env1 m1 F D o ra → Keep p.w m m1 F →
-            exec (256 ^ p.w) (8 * p.w) fns p.w f D o env1 k = some (env3, tr3, res3) → (res3 = .div0 → ck = true) →
+            exec (256 ^ p.w) (8 * p.w) fns p.w f D o env1 k = some (env3, tr3, res3) → FaultOK ck fns p.w res3 →
             (∀ st', Post p B ra Γ env3 F D o (pc + 1 + nB + 2 + nH + (cS (cxOf p ck B) fa Γ (pc + 1 + nB + 2 + nH) o k).length) m res3 st' →
               ¬ Halts (sphinx p) st') →
             Concl p B ra Γ env3 F D o (pc + 1 + nB + 2 + nH)
@@ -979,7 +1019,7 @@ theorem cS_ok (lib : Placed p B) (fok : FnsOK p ck B fa fns) :
             subst hdft
             simp only [if_true] at hex
             have hbb := ih F D ra hra body Γ env (pc + 1) o m env1 tr1 .defeat hplB (by rw [hlenB]; omega) hinv hd hwb (by omega) ho hb1
-              (by simp) (Or.inl hntb)
+              trivial (Or.inl hntb)
             have jt : Reach (sphinx p) ⟨pc, m⟩ [] ⟨pc + 1 + nB + 2, m⟩ := Reach.jump_taken' (sys := sphinx p) s0 (hbb.1 rfl)
             cases hh2 : exec (256 ^ p.w) (8 * p.w) fns p.w f D o env handler with
             | none => simp [hh2] at hex
@@ -997,7 +1037,7 @@ theorem cS_ok (lib : Placed p B) (fok : FnsOK p ck B fa fns) :
                   simp only [hk, Option.bind_some, Option.pure_def, Option.some.injEq, Prod.mk.injEq] at hex
                   obtain ⟨rfl, rfl, rfl⟩ := hex
                   have hhh := ih F D ra hra handler Γ env (pc + 1 + nB + 2) o m env2 tr2 .norm hplH (by rw [hlenH]; omega) hinv hd hwh (by omega) ho hh2
-                    (by simp) (Or.inl (plain_noTry _ hplh))
+                    trivial (Or.inl (plain_noTry _ hplh))
                   rw [hlenH] at hhh
                   obtain ⟨st2, r2, hp2⟩ := hhh.2 (by decide)
                   obtain ⟨pc2, m2⟩ := st2
@@ -1022,7 +1062,7 @@ theorem cS_ok (lib : Placed p B) (fok : FnsOK p ck B fa fns) :
                 obtain ⟨env3, tr3, res3⟩ := rk
                 simp only [hk, Option.bind_some, Option.pure_def, Option.some.injEq, Prod.mk.injEq] at hex
                 obtain ⟨rfl, rfl, rfl⟩ := hex
-                have hbb' := hbb (by simp) (Or.inl hntb)
+                have hbb' := hbb trivial (Or.inl hntb)
                 rw [hlenB] at hbb'
                 obtain ⟨st1, r1, hp1⟩ := hbb'.2 (by decide)
                 obtain ⟨pc1, m1⟩ := st1
@@ -1066,7 +1106,7 @@ theorem cS_ok (lib : Placed p B) (fok : FnsOK p ck B fa fns) :
       | none =>
         simp only [exec, hev, Option.some.injEq, Prod.mk.injEq] at hex
         obtain ⟨rfl, rfl, rfl⟩ := hex
-        obtain ⟨m', r⟩ := hg'.2 hev (hck rfl)
+        obtain ⟨m', r⟩ := hg'.2 hev hck
         exact fault _ _ _ _ m' _ r
       | some v =>
         simp only [exec, hev, Option.some.injEq, Prod.mk.injEq] at hex
@@ -1127,12 +1167,14 @@ theorem cS_ok (lib : Placed p B) (fok : FnsOK p ck B fa fns) :
       | some rc =>
         obtain ⟨trc, flag, rv⟩ := rc
         cases flag with
-        | true =>
+        | some rf =>
           simp only [hcw, Option.some.injEq, Prod.mk.injEq] at hex
           obtain ⟨rfl, rfl, rfl⟩ := hex
-          obtain ⟨m', r⟩ := (hcall g args trc true rv hpl1 (by omega) hba (by omega) hcw (fun _ => hck rfl)).1 rfl
-          exact fault _ _ _ _ m' _ r
-        | false =>
+          have hc := hcall g args trc (some rf) rv hpl1 (by omega) hba (by omega) hcw (fun r h => by cases h; exact hck)
+          rcases callWith_fault hcw with h | h <;> subst h
+          · obtain ⟨m', r⟩ := hc.1 rfl; exact fault _ _ _ _ m' _ r
+          · obtain ⟨m', r⟩ := hc.2.1 rfl; exact faultO _ _ _ _ m' _ r
+        | none =>
           simp only [hcw] at hex
           cases hk : exec (256 ^ p.w) (8 * p.w) fns p.w f D o env k with
           | none => simp [hk] at hex
@@ -1140,8 +1182,8 @@ theorem cS_ok (lib : Placed p B) (fok : FnsOK p ck B fa fns) :
             obtain ⟨envk, trk, resk⟩ := rk
             simp only [hk, Option.bind_eq_bind, Option.bind_some, Option.pure_def, Option.some.injEq, Prod.mk.injEq] at hex
             obtain ⟨rfl, rfl, rfl⟩ := hex
-            obtain ⟨m1, r1, k1, _⟩ := (hcall g args trc false rv hpl1 (by omega) hba (by omega) hcw
-              (fun h => absurd h (by simp))).2 rfl
+            obtain ⟨m1, r1, k1, _⟩ := (hcall g args trc none rv hpl1 (by omega) hba (by omega) hcw
+              (fun r h => by cases h)).2.2 rfl
             have hkk := ih F D ra hra k Γ env _ o m1 envk trk resk hpl2 (by omega)
               (hinv.keep k1 ho) hd hwk (by omega) ho hk hck
               (hs.sub (by simp [noTry]) (by simp [youLevel]) (k1.mono (by omega)) (post_conv (by omega)))
@@ -1159,12 +1201,14 @@ theorem cS_ok (lib : Placed p B) (fok : FnsOK p ck B fa fns) :
       | some rc =>
         obtain ⟨trc, flag, rv⟩ := rc
         cases flag with
-        | true =>
+        | some rf =>
           simp only [hcw, Option.some.injEq, Prod.mk.injEq] at hex
           obtain ⟨rfl, rfl, rfl⟩ := hex
-          obtain ⟨m', r⟩ := (hcall g args trc true rv hpl1 (by omega) hba (by omega) hcw (fun _ => hck rfl)).1 rfl
-          exact fault _ _ _ _ m' _ r
-        | false =>
+          have hc := hcall g args trc (some rf) rv hpl1 (by omega) hba (by omega) hcw (fun r h => by cases h; exact hck)
+          rcases callWith_fault hcw with h | h <;> subst h
+          · obtain ⟨m', r⟩ := hc.1 rfl; exact fault _ _ _ _ m' _ r
+          · obtain ⟨m', r⟩ := hc.2.1 rfl; exact faultO _ _ _ _ m' _ r
+        | none =>
           cases rv with
           | none => simp [hcw] at hex
           | some v =>
@@ -1175,8 +1219,8 @@ theorem cS_ok (lib : Placed p B) (fok : FnsOK p ck B fa fns) :
               obtain ⟨envk, trk, resk⟩ := rk
               simp only [hk, Option.bind_eq_bind, Option.bind_some, Option.pure_def, Option.some.injEq, Prod.mk.injEq] at hex
               obtain ⟨rfl, rfl, rfl⟩ := hex
-              obtain ⟨m1, r1, k1, hv1⟩ := (hcall g args trc false (some v) hpl1 (by omega) hba (by omega) hcw
-                (fun h => absurd h (by simp))).2 rfl
+              obtain ⟨m1, r1, k1, hv1⟩ := (hcall g args trc none (some v) hpl1 (by omega) hba (by omega) hcw
+                (fun r h => by cases h)).2.2 rfl
               obtain ⟨hinv1, hd1⟩ := decl_inv hinv hd x v k1 (hv1 v rfl) hxn ho
               have conv : ∀ (e1 e2 : Nat), e1 = e2 → ∀ st', Post p B ra ((x, o + p.w) :: Γ) envk F D (o + p.w) e1 m resk st' →
                   Post p B ra Γ envk F D o e2 m resk st' := by
@@ -1188,6 +1232,7 @@ theorem cS_ok (lib : Placed p B) (fok : FnsOK p ck B fa fns) :
                   exact ⟨hpost.1, decl_back hinv x hpost.2.1 hxn, hpost.2.2⟩
                 | returned => simpa [Post] using hpost
                 | div0 => simpa [Post] using hpost
+                | ovf => simpa [Post] using hpost
                 | defeat => simpa [Post] using hpost
                 | retv v => simpa [Post] using hpost
               have hkk := ih F D ra hra k ((x, o + p.w) :: Γ) (upd env x v) _ (o + p.w) m1 envk trk resk hpl2 (by omega)
@@ -1214,12 +1259,14 @@ theorem cS_ok (lib : Placed p B) (fok : FnsOK p ck B fa fns) :
       | some rc =>
         obtain ⟨trc, flag, rv⟩ := rc
         cases flag with
-        | true =>
+        | some rf =>
           simp only [hcw, Option.some.injEq, Prod.mk.injEq] at hex
           obtain ⟨rfl, rfl, rfl⟩ := hex
-          obtain ⟨m', r⟩ := (hcall g args trc true rv hpl1 (by omega) hba (by omega) hcw (fun _ => hck rfl)).1 rfl
-          exact fault _ _ _ _ m' _ r
-        | false =>
+          have hc := hcall g args trc (some rf) rv hpl1 (by omega) hba (by omega) hcw (fun r h => by cases h; exact hck)
+          rcases callWith_fault hcw with h | h <;> subst h
+          · obtain ⟨m', r⟩ := hc.1 rfl; exact fault _ _ _ _ m' _ r
+          · obtain ⟨m', r⟩ := hc.2.1 rfl; exact faultO _ _ _ _ m' _ r
+        | none =>
           cases rv with
           | none => simp [hcw] at hex
           | some v =>
@@ -1230,8 +1277,8 @@ theorem cS_ok (lib : Placed p B) (fok : FnsOK p ck B fa fns) :
               obtain ⟨envk, trk, resk⟩ := rk
               simp only [hk, Option.bind_eq_bind, Option.bind_some, Option.pure_def, Option.some.injEq, Prod.mk.injEq] at hex
               obtain ⟨rfl, rfl, rfl⟩ := hex
-              obtain ⟨m1, r1, k1, hv1⟩ := (hcall g args trc false (some v) hpl1 (by omega) hba (by omega) hcw
-                (fun h => absurd h (by simp))).2 rfl
+              obtain ⟨m1, r1, k1, hv1⟩ := (hcall g args trc none (some v) hpl1 (by omega) hba (by omega) hcw
+                (fun r h => by cases h)).2.2 rfl
               have hv := hv1 v rfl
               have hoW : o + p.w ≤ D := by unfold pkCall at hpk; omega
               have hinv1 := hinv.keep k1 ho
